@@ -471,56 +471,7 @@ func runC11(r *Report) {
 	}
 	perKeyCommandRule(r, "R11c", "rueidis.MGetCache")
 	perKeyCommandRule(r, "R11c", "rueidis.JsonMGetCache")
-	// R11d hole refill in the partial MGET: the positions served by the cache or by other callers'
-	// flights are all filled before the remaining holes are identified
-	if fn := r.FnAnchor("R11d", "rueidis.(*pipe).doCacheMGet"); fn != nil {
-		type slotStore struct {
-			s    Site
-			hole bool
-		}
-		var stores []slotStore
-		for _, s := range Sites(fn, func(in ssa.Instruction) bool { _, ok := in.(*ssa.Store); return ok }) {
-			st := s.Instr.(*ssa.Store)
-			ia, ok := st.Addr.(*ssa.IndexAddr)
-			if !ok || shortType(st.Val.Type()) != "rueidis.RedisMessage" {
-				continue
-			}
-			c, isc := ia.X.(*ssa.Call)
-			if !isc || CalleeName(c) != "rueidis.(*RedisMessage).values" || !strings.Contains(DescDeep(c.Call.Args[0]), "RedisResult.val") {
-				continue
-			}
-			hole := false
-			for _, g := range DomGuards(s.Block) {
-				x, op, y, cok := CmpGuard(g)
-				k, isk := ConstInt(y)
-				if cok && op == token.EQL && isk && k == 0 && strings.HasSuffix(Desc(x), ".typ") {
-					if _, ki, isel := elemOfDeep(x); isel && ki == ia.Index {
-						hole = true
-					}
-				}
-			}
-			stores = append(stores, slotStore{s, hole})
-		}
-		nHole, nOther := 0, 0
-		for _, h := range stores {
-			if !h.hole {
-				nOther++
-				continue
-			}
-			nHole++
-			late := ""
-			for _, o := range stores {
-				if o.hole {
-					continue
-				}
-				if hit, _ := Reaches(h.s, func(w Site) bool { return w.Instr == o.s.Instr }, nil); hit {
-					late = r.P.Pos(InstrPos(o.s.Instr))
-				}
-			}
-			r.ObSite("R11d", h.s, "holes-filled-after-all-served-positions", late == "", "a position is treated as a hole (and given the next fetched reply) only after every cached or awaited reply was placed; a served position is still filled later at "+late)
-		}
-		r.Anchor("R11d", "doCacheMGet: hole refill (1) and served-position stores (2)", nHole == 1 && nOther == 2)
-	}
+	mgetHoleRefillRule(r, "R11d")
 }
 
 // sameIndexHelperRule: in a helper that builds one command per key and maps replies back, the
@@ -920,4 +871,59 @@ func sameTuple(a, b ssa.Value) bool {
 		}
 	}
 	return true
+}
+
+// mgetHoleRefillRule: in the partial MGET the positions served by the cache or by other callers'
+// flights are all filled before the remaining holes are identified and given the fetched replies.
+func mgetHoleRefillRule(r *Report, rule string) {
+	// R11d hole refill in the partial MGET: the positions served by the cache or by other callers'
+	// flights are all filled before the remaining holes are identified
+	if fn := r.FnAnchor(rule, "rueidis.(*pipe).doCacheMGet"); fn != nil {
+		type slotStore struct {
+			s    Site
+			hole bool
+		}
+		var stores []slotStore
+		for _, s := range Sites(fn, func(in ssa.Instruction) bool { _, ok := in.(*ssa.Store); return ok }) {
+			st := s.Instr.(*ssa.Store)
+			ia, ok := st.Addr.(*ssa.IndexAddr)
+			if !ok || shortType(st.Val.Type()) != "rueidis.RedisMessage" {
+				continue
+			}
+			c, isc := ia.X.(*ssa.Call)
+			if !isc || CalleeName(c) != "rueidis.(*RedisMessage).values" || !strings.Contains(DescDeep(c.Call.Args[0]), "RedisResult.val") {
+				continue
+			}
+			hole := false
+			for _, g := range DomGuards(s.Block) {
+				x, op, y, cok := CmpGuard(g)
+				k, isk := ConstInt(y)
+				if cok && op == token.EQL && isk && k == 0 && strings.HasSuffix(Desc(x), ".typ") {
+					if _, ki, isel := elemOfDeep(x); isel && ki == ia.Index {
+						hole = true
+					}
+				}
+			}
+			stores = append(stores, slotStore{s, hole})
+		}
+		nHole, nOther := 0, 0
+		for _, h := range stores {
+			if !h.hole {
+				nOther++
+				continue
+			}
+			nHole++
+			late := ""
+			for _, o := range stores {
+				if o.hole {
+					continue
+				}
+				if hit, _ := Reaches(h.s, func(w Site) bool { return w.Instr == o.s.Instr }, nil); hit {
+					late = r.P.Pos(InstrPos(o.s.Instr))
+				}
+			}
+			r.ObSite(rule, h.s, "holes-filled-after-all-served-positions", late == "", "a position is treated as a hole (and given the next fetched reply) only after every cached or awaited reply was placed; a served position is still filled later at "+late)
+		}
+		r.Anchor(rule, "doCacheMGet: hole refill (1) and served-position stores (2)", nHole == 1 && nOther == 2)
+	}
 }
